@@ -2,18 +2,28 @@
 
 package apk
 
-import "bytes"
+import (
+	"archive/zip"
+	"bytes"
+	"crypto"
+	"encoding/binary"
+	"os"
+
+	"github.com/sassoftware/relic/v8/lib/signjar"
+	"github.com/sassoftware/relic/v8/signers"
+	"github.com/sassoftware/relic/v8/signers/sigerrors"
+)
 
 // H11.apk-serial: the signing block of an untrusted APK is a tree of
 // length-prefixed items read by a reflection-driven parser (unmarshal into
 // []apkSigner: signed data, signature list, public key). On an arbitrary
-// byte string of 0..12 bytes (quick: the lengths around each 4-byte prefix):
+// byte string of 0..28 bytes (quick: 0..12, the lengths around each 4-byte prefix):
 // an error or a value, no panic - in particular when a length prefix claims
 // up to four bytes more than remain.
 func VH_C11_ApkUnmarshal() {
 	var n int
 	if vhTier() > 0 {
-		n = vhConcretize(vhInt("len", 0, 12), 13)
+		n = vhConcretize(vhInt("len", 0, 28), 29)
 	} else {
 		n = []int{0, 3, 4, 5, 8, 9, 12}[vhConcretize(vhInt("lenidx", 0, 6), 7)]
 	}
@@ -60,4 +70,54 @@ func VH_C05_ApkSerializerRoundTrip() {
 	vhAssert(unmarshal(raw, &sd2) == nil && len(sd2.Digests) == 1 && sd2.Digests[0].ID == sd.Digests[0].ID && bytes.Equal(sd2.Digests[0].Value, sd.Digests[0].Value), "digest-round-trips")
 	vhAssert(len(sd2.Certificates) == 1 && bytes.Equal(sd2.Certificates[0], sd.Certificates[0]), "certificate-round-trips")
 	vhReach("round-trip") // vh:require round-trip
+}
+
+// H11.apk-verify: `relic verify` on an APK whose signing block is well framed
+// (sizes and magic consistent, so the locator hands it on) but whose
+// ID-value pairs are ARBITRARY bytes (0..40, quick: around the 12-byte pair
+// header and the nested 4-byte prefixes): the pair walk and the nested item
+// parser return an error or signatures, never a panic. Public-key parsing,
+// the signature check and the v1 (JAR) pass are stubs.
+func VH_C11_ApkVerifyPairs() {
+	// vh:stubbed
+	var n int
+	if vhTier() > 0 {
+		n = vhConcretize(vhInt("pairs-bytes", 0, 40), 41)
+	} else {
+		n = []int{0, 11, 12, 13, 16, 20}[vhConcretize(vhInt("pairs-idx", 0, 5), 6)]
+	}
+	pairs := vhBytes("pairs", n)
+	if n >= 12 && vhBool("v2-pair-first") {
+		// steer into the v2 branch: one pair spanning the rest, with the v2 id
+		vhAssume(pairs[0] == byte(n-8) && pairs[1] == 0 && pairs[2] == 0 && pairs[3] == 0 && pairs[4] == 0 && pairs[5] == 0 && pairs[6] == 0 && pairs[7] == 0)
+		vhAssume(pairs[8] == 0x1a && pairs[9] == 0x87 && pairs[10] == 0x09 && pairs[11] == 0x71)
+	}
+	block := make([]byte, 8+n+24)
+	binary.LittleEndian.PutUint64(block, uint64(len(block)-8))
+	copy(block[8:], pairs)
+	binary.LittleEndian.PutUint64(block[8+n:], uint64(len(block)-8))
+	copy(block[8+n+8:], sigMagic)
+	vhStub("crypto/x509.ParsePKIXPublicKey", func(der []byte) (interface{}, error) { return nil, nil })
+	vhStub("(*github.com/sassoftware/relic/v8/signers/apk.apkSignature).VerifySignature", func(s *apkSignature, pub crypto.PublicKey, signed []byte) (crypto.Hash, error) {
+		return crypto.SHA256, nil
+	})
+	vhStub("github.com/sassoftware/relic/v8/lib/signjar.Verify", func(inz *zip.Reader, skipDigests bool) ([]*signjar.JarSignature, error) {
+		return nil, sigerrors.NotSignedError{Type: "JAR"}
+	})
+	vhMaxLen(512)
+	vhLoopBound(256)
+	vhAllocLimit(4<<20 + 16*len(block))
+	p := vhFSPath("a.apk")
+	vhFSPut(p, vhApkZip(block))
+	f, err := os.Open(p)
+	if err != nil {
+		return
+	}
+	sigs, err := verify(f, signers.VerifyOpts{})
+	if err == nil {
+		vhAssert(len(sigs) > 0, "success-carries-a-signature")
+		vhReach("accepted")
+	} else {
+		vhReach("rejected") // vh:require rejected
+	}
 }
